@@ -18,6 +18,7 @@ RULE = (
     "every set of <= k deviations (single-bit flips and truncations of ciphertext and signature, single-bit flips of "
     "the HMAC key, missing key) is enumerated; each must raise ValueError with decrypt_data never entered. Framing: "
     "every sequence of 1..3 packets over the length family. non-trivial = plaintext non-empty or a fault was injected"
+    '. Added: plaintexts of 4-12 KiB (70 KB thorough), every prefix / bit flip of a framed task stream through framing + verification, the traffic decoder on 1-3 packet messages with each packet changed or cut, repeated identical packets. '
 )
 ASSUMPTIONS = [
     "the 2^128 key space is represented by a structured family (all-zero, all-ff, single-bit, ramp, LCG keys)",
